@@ -36,10 +36,13 @@ def sibling_doc(rnd):
     n = rnd.choice([0, 1, 1, 2, 2, 3, 4, 5, 6, 8, 10])
     style = rnd.choice(['tight', 'spaced', 'mixed', 'tight'])
     kids = []
+    mixed_case = rnd.random() < 0.3
     for i in range(n):
         if style == 'spaced' or (style == 'mixed' and rnd.random() < 0.5):
             kids.append(rnd.choice([('t', '\n'), ('c', 'x'), ('t', 'txt'), ('t', ' ')]))
         nm = rnd.choice(['li', 'li', 'dd', 'p'])
+        if mixed_case and rnd.random() < 0.5:
+            nm = rnd.choice(['li', 'Li', 'LI', 'dd', 'DD'])          # one type in HTML, different types in XML
         a = {'class': rnd.choice(['x', 'y', 'x y', ''])} if rnd.random() < 0.6 else {}
         kids.append(('e', nm, a, [('e', 'b', {}, [])] if rnd.random() < 0.2 else []))
     if style != 'tight' and rnd.random() < 0.5:
